@@ -1256,6 +1256,18 @@ def _layer_plottable(ctx, rule: str) -> List[Ob]:
     return [Ob(rule, o.title, o.status, o.where, o.detail, o.key, o.construct, o.extra) for o in obs]
 
 
+def _layer_guards(ctx, rule: str) -> List[Ob]:
+    obs = ctx.get('chain-guards', lambda c: r18_1_guarded_divisions(c, 'R18.1', 'R05.4'))
+    return [Ob(rule, o.title, o.status, o.where, o.detail, o.key, o.construct, o.extra) for o in obs]
+
+
+def _layer_add_kernels(ctx, rule: str) -> List[Ob]:
+    """the add kernels of the three classes: compiled source and fallback agree, values of the sum per clause"""
+    fams = [f for f in eng(ctx).families if f.wrapper.cls]
+    obs = ctx.get('chain-addkernels', lambda c: _sib(c, fams, 'R12.2') + [o for o in RC.add_value_rules(c, _ensure_helpers(c), 'R09.5')])
+    return [Ob(rule, o.title, o.status, o.where, o.detail, o.key, o.construct, o.extra) for o in obs]
+
+
 def _layer_discrete_defs(ctx, rule: str, kinds=('sync', 'order', 'dir')) -> List[Ob]:
     obs = ctx.get(('chain-discrete', kinds), lambda c: _discrete_rules(c, kinds))
     return [Ob(rule, o.title, o.status, o.where, o.detail, o.key, o.construct, o.extra) for o in obs
@@ -1263,6 +1275,11 @@ def _layer_discrete_defs(ctx, rule: str, kinds=('sync', 'order', 'dir')) -> List
 
 
 _CHAIN_TXT = {
+    'guards': ("{rid} (=R18.1/R05.4) every division by a spike count or a summed multiplicity is dominated by a zero test on that very "
+               "quantity, and the zero branch returns the convention of its kind (1 for a summed multiplicity, 0 for a spike count) - in "
+               "every call form alike; a helper that serves divisors of both kinds cannot satisfy both."),
+    'add_kernels': ("{rid} (=R12.2/R09.5/R11.1) the add kernels of the function classes (both copies): merged support, values of the sum, "
+                    "edge entries of discrete sums."),
     'discrete_defs': ("{rid} (=R03.3/R04.2/R03.6) the discrete profile kernels store exactly the documented marks and multiplicities, "
                       "frame them with copies of the first / last event (value and multiplicity together) and return every recorded "
                       "event."),
@@ -1306,12 +1323,14 @@ _CHAINS = {
             ('R03.11', 'avrg', lambda c: _class_averages(c, 'R03.11', ('DiscreteFunc',))),
             ('R03.12', 'reconcile', lambda c: _layer_reconcile(c, (_SYN,), 'R03.12')),
             ('R03.13', 'defaults', lambda c: _layer_defaults(c, 'R03.13')),
-            ('R03.14', 'typestates', lambda c: _layer_typestates(c, (_SYN,), 'R03.14'))],
+            ('R03.14', 'typestates', lambda c: _layer_typestates(c, (_SYN,), 'R03.14')),
+            ('R03.15', 'guards', lambda c: _layer_guards(c, 'R03.15'))],
     'C04': [('R04.10', 'plumbing', lambda c: _plumbing(c, (_DIR,), 'R04.10')),
             ('R04.11', 'avrg', lambda c: _class_averages(c, 'R04.11', ('DiscreteFunc',))),
             ('R04.12', 'reconcile', lambda c: _layer_reconcile(c, (_DIR,), 'R04.12')),
             ('R04.13', 'defaults', lambda c: _layer_defaults(c, 'R04.13')),
-            ('R04.14', 'typestates', lambda c: _layer_typestates(c, (_DIR,), 'R04.14'))],
+            ('R04.14', 'typestates', lambda c: _layer_typestates(c, (_DIR,), 'R04.14')),
+            ('R04.15', 'guards', lambda c: _layer_guards(c, 'R04.15'))],
     'C05': [('R05.10', 'class_ops', lambda c: _layer_class_ops(c, 'R05.10')),
             ('R05.11', 'reconcile', lambda c: _layer_reconcile(c, (_ISI, _SPK, _SYN, _DIR), 'R05.11')),
             ('R05.12', 'plumbing', lambda c: _plumbing(c, (_ISI, _SPK, _SYN, _DIR), 'R05.12'))],
@@ -1323,7 +1342,8 @@ _CHAINS = {
             ('R07.11', 'reconcile', lambda c: _layer_reconcile(c, (_ISI, _SPK, _SYN, _DIR), 'R07.11')),
             ('R07.12', 'discrete_defs', lambda c: _layer_discrete_defs(c, 'R07.12'))],
     'C15': [('R15.8', 'reconcile', lambda c: _layer_reconcile(c, (_ISI, _SPK, _SYN, _DIR), 'R15.8')),
-            ('R15.9', 'plumbing', lambda c: _plumbing(c, (_ISI, _SPK, _SYN, _DIR), 'R15.9'))],
+            ('R15.9', 'plumbing', lambda c: _plumbing(c, (_ISI, _SPK, _SYN, _DIR), 'R15.9')),
+            ('R15.10', 'typestates', lambda c: _layer_typestates(c, (_ISI, _SPK, _SYN, _DIR), 'R15.10'))],
     'C08': [('R08.7', 'isi_lengths', lambda c: [Ob('R08.7', o.title, o.status, o.where, o.detail, o.key, o.construct, o.extra)
                                                  for o in RM.r15_4_threshold_definition(c, 'R15.4', 'R08.2') if o.rule == 'R15.4']),
             ('R08.8', 'aux', lambda c: _nonempty_aux(c, 'R08.8')),
@@ -1334,18 +1354,22 @@ _CHAINS = {
     'C10': [('R10.7', 'ownership', lambda c: r09_2_ownership(c, 'R10.7', {'PieceWiseConstFunc', 'PieceWiseLinFunc'}))],
     'C12': [('R12.8', 'avrg', lambda c: _class_averages(c, 'R12.8')),
             ('R12.9', 'plumbing', lambda c: _plumbing(c, (_ISI, _SPK, _SYN, _DIR), 'R12.9')),
-            ('R12.10', 'typestates', lambda c: _layer_typestates(c, (_ISI, _SPK, _SYN, _DIR), 'R12.10'))],
+            ('R12.10', 'typestates', lambda c: _layer_typestates(c, (_ISI, _SPK, _SYN, _DIR), 'R12.10')),
+            ('R12.11', 'guards', lambda c: _layer_guards(c, 'R12.11'))],
     'C14': [('R14.8', 'defaults', lambda c: _layer_defaults(c, 'R14.8')),
             ('R14.9', 'reconcile', lambda c: _layer_reconcile(c, (_ISI, _SPK, _SYN, _DIR), 'R14.9')),
-            ('R14.10', 'typestates', lambda c: _layer_typestates(c, (_ISI, _SPK, _SYN, _DIR), 'R14.10'))],
+            ('R14.10', 'typestates', lambda c: _layer_typestates(c, (_ISI, _SPK, _SYN, _DIR), 'R14.10')),
+            ('R14.11', 'guards', lambda c: _layer_guards(c, 'R14.11'))],
     'C16': [('R16.6', 'plumbing', lambda c: _plumbing(c, (_SYN, _DIR), 'R16.6')),
             ('R16.7', 'defaults', lambda c: _layer_defaults(c, 'R16.7')),
-            ('R16.8', 'reconcile', lambda c: _layer_reconcile(c, (_SYN, _DIR), 'R16.8'))],
+            ('R16.8', 'reconcile', lambda c: _layer_reconcile(c, (_SYN, _DIR), 'R16.8')),
+            ('R16.10', 'typestates', lambda c: _layer_typestates(c, (_SYN, _DIR), 'R16.10'))],
     'C17': [('R17.6', 'defaults', lambda c: _layer_defaults(c, 'R17.6')),
             ('R17.7', 'reconcile', lambda c: _layer_reconcile(c, (_SYN,), 'R17.7'))],
     'C18': [('R18.11', 'reconcile', lambda c: _layer_reconcile(c, (_ISI, _SPK, _SYN, _DIR), 'R18.11')),
             ('R18.12', 'avrg', lambda c: _class_averages(c, 'R18.12')),
-            ('R18.13', 'plumbing', lambda c: _plumbing(c, (_ISI, _SPK, _SYN, _DIR), 'R18.13'))],
+            ('R18.13', 'plumbing', lambda c: _plumbing(c, (_ISI, _SPK, _SYN, _DIR), 'R18.13')),
+            ('R18.14', 'add_kernels', lambda c: _layer_add_kernels(c, 'R18.14'))],
 }
 for _pid, _items in _CHAINS.items():
     for _rid, _kind, _fn_ in _items:
